@@ -102,6 +102,8 @@ fn panic_class(p: &(dyn std::any::Any + Send)) -> String {
         "callback".into()
     } else if s.contains("char boundary") || s.contains("out of bounds") || s.contains("index") || s.contains("is out of range") {
         "index".into()
+    } else if s == "an error occurred when formatting an argument" {
+        "fmt".into()
     } else if s == "text is too long" {
         "toolong".into()
     } else if s == "reference count overflow" {
@@ -227,7 +229,7 @@ impl Pool {
         let plain = |names: &[&str]| -> Vec<(String, i64)> { if faulty && op.t == 1 { vec![] } else { names.iter().map(|n| (n.to_string(), 0)).collect() } };
         match op.op.as_str() {
             "from_str" => {
-                let mut v = plain(&["", "string", "ref_string", "box", "cow_b", "cow_o", "utf8", "utf8_unchecked", "tls_string", "lossy"]);
+                let mut v = plain(&["", "string", "ref_string", "box", "cow_b", "cow_o", "utf8", "utf8_unchecked", "tls_string"]);
                 if !faulty || op.t == 1 {
                     v.push(("fromstr".into(), 1));
                     v.push(("try_tls_string".into(), 1));
@@ -344,7 +346,7 @@ impl Pool {
         // ---------------------------------------------------------------- std String oracle
         // String is not subject to the injected allocation failures: when the crate reported
         // one, the oracle is resynchronised from the crate's text instead of running the call.
-        let failed = res.cls == "err" && res.msg == "reserve" || (res.cls == "panic" && res.msg == "reserve");
+        let failed = (res.cls == "err" || res.cls == "panic") && res.msg == "reserve";
         if failed {
             // text unchanged is what the oracle says; iterator-driven calls may have applied a
             // prefix of their items: adopt the crate's text only if it is such a prefix
@@ -383,7 +385,8 @@ impl Pool {
                     // String words its index panics differently; anything that is not the
                     // harness's own callback panic is an index panic on the oracle side
                     res.scls = "panic".into();
-                    res.smsg = if panic_class(&*p) == "callback" { "callback".into() } else { "index".into() };
+                    let c = panic_class(&*p);
+                    res.smsg = if c == "callback" || c == "fmt" { c } else { "index".into() };
                 }
             }
         }
@@ -470,7 +473,11 @@ impl Pool {
                 ss[h] = Some(s);
                 ok()
             }
-            "write_display" => {
+            "compare" => {
+                let (a, b) = (ss[h].as_ref().unwrap(), ss[op.g - 1].as_ref().unwrap());
+                ("ok".into(), vec![(a == b) as u8, match a.cmp(b) { std::cmp::Ordering::Less => 0, std::cmp::Ordering::Equal => 1, std::cmp::Ordering::Greater => 2 }, 1])
+            }
+            "display" => {
                 // to_string() of the same Display value
                 let items = items_of(&op.x);
                 let p = Pieces { pieces: &items, fail_at: op.n, panic_at: op.m };
@@ -480,7 +487,13 @@ impl Pool {
                         ss[h] = Some(s);
                         ok()
                     }
-                    Err(_) => ("err".into(), vec![]),
+                    Err(_) => {
+                        if op.t == 1 {
+                            ("err".into(), vec![])
+                        } else {
+                            panic!("an error occurred when formatting an argument")
+                        }
+                    }
                 }
             }
             _ => ("unknown".into(), vec![]),
@@ -762,7 +775,12 @@ impl Pool {
                 self.ls[h] = Some(v);
                 Out::Ok
             }
-            "write_display" => {
+            "compare" => {
+                let a = self.ls[h].as_ref().unwrap();
+                let b = self.ls[op.g - 1].as_ref().unwrap();
+                Out::Val(compare_all(a, b))
+            }
+            "display" => {
                 // to_lean_string() of a user Display type writing its text in pieces
                 let items = items_of(&op.x);
                 let p = Pieces { pieces: &items, fail_at: op.n, panic_at: op.m };
@@ -846,6 +864,53 @@ impl Pool {
             Some(s) => json!(s.as_bytes()),
         }).collect())
     }
+}
+
+/// Every observation of C17 on a pair: [a == b, a.cmp(b), "all other forms agree with the text"].
+pub fn compare_all(a: &LeanString, b: &LeanString) -> Vec<u8> {
+    use std::collections::hash_map::DefaultHasher;
+    use std::collections::{BTreeMap, HashMap};
+    use std::hash::{Hash, Hasher};
+    let (ta, tb) = (a.as_str().to_string(), b.as_str().to_string());
+    let eq = a == b;
+    let ord = a.cmp(b);
+    let mut ok = true;
+    // equality in every type / order combination must agree with the texts
+    let te = ta == tb;
+    let cow_b: Cow<str> = Cow::Borrowed(tb.as_str());
+    let cow_o: Cow<str> = Cow::Owned(tb.clone());
+    ok &= (a == b) == te && (b == a) == te && (a != b) != te;
+    ok &= (*a == *tb.as_str()) == te && (*tb.as_str() == *a) == te;
+    ok &= (*a == tb.as_str()) == te && (tb.as_str() == *a) == te;
+    ok &= (*a == tb) == te && (tb == *a) == te;
+    ok &= (*a == cow_b) == te && (cow_b == *a) == te && (*a == cow_o) == te && (cow_o == *a) == te;
+    // ordering
+    ok &= ord == ta.as_str().cmp(tb.as_str()) && a.partial_cmp(b) == Some(ord) && b.cmp(a) == ord.reverse();
+    ok &= (a < b) == (ta < tb) && (a >= b) == (ta >= tb);
+    // hashing: same as the &str of the text (so a LeanString key can be looked up by &str)
+    let h = |x: &dyn Fn(&mut DefaultHasher)| {
+        let mut s = DefaultHasher::new();
+        x(&mut s);
+        s.finish()
+    };
+    ok &= h(&|s| a.hash(s)) == h(&|s| ta.as_str().hash(s)) && h(&|s| b.hash(s)) == h(&|s| tb.as_str().hash(s));
+    if te {
+        ok &= h(&|s| a.hash(s)) == h(&|s| b.hash(s));
+    }
+    // formatting
+    ok &= format!("{a}") == ta && format!("{a:?}") == format!("{:?}", ta.as_str()) && format!("{b}") == tb && format!("{b:?}") == format!("{:?}", tb.as_str());
+    ok &= format!("{a:>30}") == format!("{:>30}", ta.as_str());
+    // views
+    ok &= <LeanString as AsRef<str>>::as_ref(a) == ta && <LeanString as AsRef<[u8]>>::as_ref(a) == ta.as_bytes() && <LeanString as std::borrow::Borrow<str>>::borrow(a) == ta && &**a == ta.as_str();
+    ok &= String::from(a) == ta && String::from(b.clone()) == tb;
+    // map lookups by &str
+    let mut hm: HashMap<LeanString, u8> = HashMap::new();
+    hm.insert(a.clone(), 1);
+    ok &= hm.get(ta.as_str()) == Some(&1) && hm.contains_key(tb.as_str()) == te;
+    let mut bm: BTreeMap<LeanString, u8> = BTreeMap::new();
+    bm.insert(a.clone(), 1);
+    ok &= bm.get(ta.as_str()) == Some(&1) && bm.contains_key(tb.as_str()) == te;
+    vec![eq as u8, match ord { std::cmp::Ordering::Less => 0, std::cmp::Ordering::Equal => 1, std::cmp::Ordering::Greater => 2 }, ok as u8]
 }
 
 pub fn call_json(op: &Op, r: &CallRes) -> Value {
